@@ -72,18 +72,27 @@ func NewZSetMember(score float64, data string) *ZSetMember {
 func (zset *ZSet) Add(nms []*ZSetMember, opt ZAddOption) int {
 	addedMemberCount := 0
 	for _, nm := range nms {
-		isAdded := false
+		// A member is stored once: adding it again replaces its score.
+		isNew := true
 		for n, tm := range zset.members {
-			if nm.Score < tm.Score {
-				zset.members = append(zset.members[:n+1], zset.members[n:]...)
-				zset.members[n] = nm
-				isAdded = true
-				addedMemberCount++
+			if tm.Member == nm.Member {
+				zset.members = append(zset.members[:n], zset.members[n+1:]...)
+				isNew = false
 				break
 			}
 		}
-		if !isAdded {
-			zset.members = append(zset.members, nm)
+		// Ascending by score; members with equal scores in lexicographical order.
+		pos := len(zset.members)
+		for n, tm := range zset.members {
+			if nm.Score < tm.Score || (nm.Score == tm.Score && nm.Member < tm.Member) {
+				pos = n
+				break
+			}
+		}
+		zset.members = append(zset.members, nil)
+		copy(zset.members[pos+1:], zset.members[pos:])
+		zset.members[pos] = nm
+		if isNew {
 			addedMemberCount++
 		}
 	}
